@@ -337,6 +337,30 @@ def callback(rng, stop=True):
     return cb
 
 
+def tinyvars(spec, s):
+    """Restate ``spec`` in the variables x' = s * x (s tiny or huge): same
+    problem, every length (x0, bounds, radii, linear coefficients) in the new
+    unit.  Steps late in such a run are far below 1e-13 in absolute terms."""
+    n = spec["n"]
+    if spec["obj"]["kind"] != "none":
+        spec["obj"] = {"kind": "xscaled", "base": spec["obj"], "s": s}
+    for nc in spec.get("nl", []):
+        nc["comps"] = [{"kind": "xscaled", "base": c, "s": s}
+                       for c in nc["comps"]]
+    spec["x0"] = (np.asarray(spec["x0"], float) * s).tolist()
+    if spec.get("bounds"):
+        for k in ("lb", "ub"):
+            spec["bounds"][k] = (np.asarray(spec["bounds"][k], float)
+                                 * s).tolist()
+    for lc in spec.get("lin", []):
+        lc["A"] = (np.asarray(lc["A"], float).reshape(-1, n) / s).tolist()
+    o = spec.setdefault("options", {})
+    o["radius_init"] = float(o.get("radius_init", 1.0)) * s
+    o["radius_final"] = float(o.get("radius_final", 1e-6)) * s
+    spec["xunit"] = s
+    return spec
+
+
 def fault_plan(rng, spec, density=1):
     """NaN / inf / huge injections on objective and constraint components."""
     faults = []
